@@ -62,9 +62,34 @@ def op_c08_sidecar(job):
         w.close()
 
 
+class Reorder:
+    """VFS_Real.listdir of one directory returns its names in another order (the real listdir
+    still runs; only the order of its result changes)."""
+
+    def __init__(self, dirsel, fn):
+        self.dirsel, self.fn, self.orig = dirsel, fn, None
+
+    def __enter__(self):
+        self.orig = hbase.VFS_Real.listdir
+        me, orig = self, self.orig
+
+        def listdir(vfs, selector):
+            r = orig(vfs, selector)
+            return me.fn(r) if selector == me.dirsel else r
+        hbase.VFS_Real.listdir = listdir
+        return self
+
+    def __exit__(self, *a):
+        hbase.VFS_Real.listdir = self.orig
+
+
+ORDERS = {"natural": lambda r: list(r), "reversed": lambda r: list(reversed(sorted(r))),
+          "rotated": lambda r: sorted(r)[len(r) // 2:] + sorted(r)[:len(r) // 2]}
+
+
 def op_c08_menu(job):
-    """One scratch tree, UMN handler, for each extstrip mode: the world description,
-    handler.prepare() outcome (entries) and the Gopher menu the real server sends."""
+    """One scratch tree, UMN handler, for each extstrip mode and each enumeration order: the
+    world description, handler.prepare() outcome (entries) and the Gopher menu the real server sends."""
     out = {}
     for mode in job["modes"]:
         cfg = {k: dict(v) for k, v in (job.get("config") or {}).items()}
@@ -74,12 +99,23 @@ def op_c08_menu(job):
             dirsel = job["dir"]
             world = c07.describe_world(w.config, w.root, dirsel)
             names = [c["name"] for c in world["children"]]
-            r = c07.run_prepare(w.config, dirsel, "umn", sorted(names) if job.get("sorted") else None)
-            reply = c07.with_alarm(5, lambda: DRV.serve_once(w.config, dirsel.encode("utf-8", "surrogateescape") + b"\r\n"))
-            out[mode] = {"world": world, "groups": [{"result": r, "perms": [list(range(len(names)))]}],
-                         "enum": names,
-                         "ignorepatt": w.config.get("handlers.dir.DirHandler", "ignorepatt"), "extstrip": mode,
-                         "menu": reply["out"], "exc": reply["exc"], "log": reply["log"][-2:]}
+            runs = []
+            for oname in job.get("orders", ["natural"]):
+                with Reorder(dirsel, ORDERS[oname]):
+                    enum = hbase.VFS_Real(w.config).listdir(dirsel)
+                    r = c07.run_prepare(w.config, dirsel, "umn", None)
+                    reply = c07.with_alarm(5, lambda: DRV.serve_once(
+                        w.config, dirsel.encode("utf-8", "surrogateescape") + b"\r\n"))
+                # the request leaves the directory cache file behind; it is not part of the content
+                cf = c07.fs_path(w.config, ("" if dirsel == "/" else dirsel) + "/" +
+                                 w.config.get("handlers.dir.DirHandler", "cachefile"))
+                if os.path.exists(cf):
+                    os.unlink(cf)
+                runs.append({"order": oname, "enum": enum, "result": r, "menu": reply["out"], "exc": reply["exc"],
+                             "log": reply["log"][-2:]})
+            out[mode] = {"world": world, "runs": runs,
+                         "groups": [{"result": x["result"], "perms": [[names.index(n) for n in x["enum"]]]} for x in runs],
+                         "ignorepatt": w.config.get("handlers.dir.DirHandler", "ignorepatt"), "extstrip": mode}
         except c07.Timeout:
             out[mode] = {"exc": "Timeout"}
         finally:
